@@ -115,17 +115,17 @@ Fixpoint find_kid (c : name) (l : list node) : option node :=
 Fixpoint del_kid (c : name) (l : list node) : list node :=
   match l with [] => [] | h :: t => if neqb (niso h) c then t else h :: del_kid c t end.
 
-(* replace the first child named c by the list g returns for it *)
-Fixpoint on_kid (c : name) (g : node -> option (list node)) (l : list node) : option (list node) :=
+(* replace the first child named c by what g returns for it *)
+Fixpoint on_kid (c : name) (g : node -> option node) (l : list node) : option (list node) :=
   match l with
   | [] => None
-  | h :: t => if neqb (niso h) c then option_map (fun r => r ++ t) (g h)
+  | h :: t => if neqb (niso h) c then option_map (fun h' => h' :: t) (g h)
               else option_map (cons h) (on_kid c g t)
   end.
 
 (* _find_dr_record_by_name: one component after the other; a child link is followed (the node IS
    the relocated directory); a component that is not a directory ends the search *)
-Fixpoint at_path (p : list name) (g : node -> option (list node)) (l : list node)
+Fixpoint at_path (p : list name) (g : node -> option node) (l : list node)
   : option (list node) :=
   match p with
   | [] => None
@@ -134,7 +134,7 @@ Fixpoint at_path (p : list name) (g : node -> option (list node)) (l : list node
       | [] => on_kid c g l
       | _ :: _ => on_kid c (fun k => match k with
                                      | Dir i r e d m ks =>
-                                         option_map (fun ks' => [Dir i r e d m ks']) (at_path p' g ks)
+                                         option_map (Dir i r e d m) (at_path p' g ks)
                                      | Leaf _ _ _ => None
                                      end) l
       end
@@ -194,11 +194,11 @@ Definition b2z (b : bool) : Z := if b then 1 else 0.
 (* the parent record k receives the new child: duplicate test (add_directory's own loop, or
    _add_child's), then _rr_new of the child bumps k's own record and k's '.' when the child is a
    directory or a placeholder, then bisect insertion *)
-Definition add_in (new : node) (bump : bool) (k : node) : option (list node) :=
+Definition add_in (new : node) (bump : bool) (k : node) : option node :=
   match k with
   | Dir i r e d m ks =>
       if has_name (niso new) ks then None
-      else Some [Dir i r (e + b2z bump) (d + b2z bump) m (ins new ks)]
+      else Some (Dir i r (e + b2z bump) (d + b2z bump) m (ins new ks))
   | Leaf _ _ _ => None
   end.
 
@@ -264,9 +264,9 @@ Definition add_dir (s : state) (p : list name) (rr : name) : state * outcome :=
 (* ---- rm_directory / rm_file ---------------------------------------------------------------- *)
 (* parent.remove_child(child): for a directory or a placeholder the parent's own record and its
    '.' are decremented; del children[index] *)
-Definition del_in (c : name) (bump : bool) (k : node) : option (list node) :=
+Definition del_in (c : name) (bump : bool) (k : node) : option node :=
   match k with
-  | Dir i r e d m ks => Some [Dir i r (e - b2z bump) (d - b2z bump) m (del_kid c ks)]
+  | Dir i r e d m ks => Some (Dir i r (e - b2z bump) (d - b2z bump) m (del_kid c ks))
   | Leaf _ _ _ => None
   end.
 
@@ -370,13 +370,13 @@ Fixpoint l_find (c : name) (l : list lnode) : option lnode :=
   match l with [] => None | h :: t => if neqb (liso h) c then Some h else l_find c t end.
 Fixpoint l_del (c : name) (l : list lnode) : list lnode :=
   match l with [] => [] | h :: t => if neqb (liso h) c then t else h :: l_del c t end.
-Fixpoint l_on (c : name) (g : lnode -> option (list lnode)) (l : list lnode) : option (list lnode) :=
+Fixpoint l_on (c : name) (g : lnode -> option lnode) (l : list lnode) : option (list lnode) :=
   match l with
   | [] => None
-  | h :: t => if neqb (liso h) c then option_map (fun r => r ++ t) (g h)
+  | h :: t => if neqb (liso h) c then option_map (fun h' => h' :: t) (g h)
               else option_map (cons h) (l_on c g t)
   end.
-Fixpoint l_at (p : list name) (g : lnode -> option (list lnode)) (l : list lnode)
+Fixpoint l_at (p : list name) (g : lnode -> option lnode) (l : list lnode)
   : option (list lnode) :=
   match p with
   | [] => None
@@ -384,7 +384,7 @@ Fixpoint l_at (p : list name) (g : lnode -> option (list lnode)) (l : list lnode
       match p' with
       | [] => l_on c g l
       | _ :: _ => l_on c (fun k => match k with
-                                   | LDir i r ks => option_map (fun ks' => [LDir i r ks']) (l_at p' g ks)
+                                   | LDir i r ks => option_map (LDir i r) (l_at p' g ks)
                                    | LLeaf _ _ _ => None
                                    end) l
       end
@@ -408,7 +408,7 @@ Definition l_add (t : list lnode) (q : list name) (n : lnode) : option (list lno
   | [] => if l_has (liso n) t then None else Some (l_ins n t)
   | _ :: _ => l_at q (fun k => match k with
                                | LDir i r ks => if l_has (liso n) ks then None
-                                                else Some [LDir i r (l_ins n ks)]
+                                                else Some (LDir i r (l_ins n ks))
                                | LLeaf _ _ _ => None
                                end) t
   end.
@@ -416,7 +416,7 @@ Definition l_rm (t : list lnode) (q : list name) (c : name) : option (list lnode
   match q with
   | [] => Some (l_del c t)
   | _ :: _ => l_at q (fun k => match k with
-                               | LDir i r ks => Some [LDir i r (l_del c ks)]
+                               | LDir i r ks => Some (LDir i r (l_del c ks))
                                | LLeaf _ _ _ => None
                                end) t
   end.
